@@ -21,10 +21,12 @@ import (
 	"anndbverif/vrt/fakes"
 	"anndbverif/world"
 
+	"github.com/coreos/etcd/raft/raftpb"
 	"github.com/marekgalovic/anndb/cluster"
 	pb "github.com/marekgalovic/anndb/protobuf"
 	"github.com/marekgalovic/anndb/storage"
 	"github.com/marekgalovic/anndb/storage/raft"
+	"github.com/marekgalovic/anndb/storage/wal"
 
 	"github.com/golang/protobuf/proto"
 	uuid "github.com/satori/go.uuid"
@@ -62,6 +64,8 @@ type variant struct {
 	maxQ       int
 	delay      bool
 	dial       []uint64 // a request / raft-transport thread making first contact with these nodes meanwhile
+	creator    bool     // a client's Create request (placement reads the member list, the proposal joins the catalogue log) meanwhile
+	damage     []int    // datasets whose partition's log store is damaged beforehand (raft panics when that group is loaded)
 }
 
 func dsID(n int) uuid.UUID { return world.ID(uint64(0xd0+n), 0xd5) }
@@ -90,6 +94,7 @@ func build(v variant) *explore.Scenario {
 			fakes.Reset()
 			world.Quiet()
 			var conn *cluster.Conn
+			var dm *storage.DatasetManager
 			g := &scriptedGroup{log: make(chan []byte, 256)}
 			db := world.MemDB()
 			x.OnCleanup(func() {
@@ -105,7 +110,13 @@ func build(v variant) *explore.Scenario {
 				conn.AddNode(2, world.Addr(2))
 				allocator := storage.NewAllocator(conn)
 				transport := raft.NewTransport(1, world.Addr(1), conn)
-				_, err = storage.NewDatasetManager(g, db, transport, conn, allocator)
+				for _, n := range v.damage {
+					// a log store whose hard state points beyond its entries: etcd raft panics while restarting on it
+					if err := wal.NewBadgerWAL(db, world.ID(uint64(0xb0+n), 0x77)).Save(raftpb.HardState{Term: 1, Vote: 1, Commit: 7}, nil, raftpb.Snapshot{}); err != nil {
+						panic(err)
+					}
+				}
+				dm, err = storage.NewDatasetManager(g, db, transport, conn, allocator)
 				if err != nil {
 					panic(err)
 				}
@@ -153,6 +164,12 @@ func build(v variant) *explore.Scenario {
 					membershipDone = true
 				})
 			}
+			if v.creator {
+				x.S.Spawn("n1/creator", true, func() {
+					// success, refusal or time-out are all fine; not coming back is not
+					dm.Create(context.Background(), &pb.Dataset{Dimension: 1, Space: pb.Space_Euclidean, PartitionCount: 1, ReplicationFactor: 2})
+				})
+			}
 			if len(v.dial) > 0 {
 				x.S.Spawn("n1/dialer", true, func() {
 					for _, id := range v.dial {
@@ -180,7 +197,15 @@ func build(v variant) *explore.Scenario {
 				// classify every unfinished thread of the control plane
 				var wedged []string
 				var detail []string
+				// the allocator's own loop is the first thread started from allocator.go; the later ones are the membership
+				// handlers it starts beside itself
+				loopSeen := false
+				waitingForLeader := 0
 				for _, t := range x.S.Threads() {
+					isLoop := false
+					if strings.Contains(t.Name, "allocator.go") && !loopSeen {
+						loopSeen, isLoop = true, true
+					}
 					if t.Finished() {
 						continue
 					}
@@ -195,9 +220,19 @@ func build(v variant) *explore.Scenario {
 						role = "membership-notifier"
 					case t.Name == "n1/dialer":
 						role = "dialer"
-					case strings.Contains(t.Name, "allocator.go"):
+					case t.Name == "n1/creator":
+						role = "create-request"
+					case isLoop:
 						role = "allocator-loop"
 						idle = strings.HasSuffix(fn, "(*Allocator).run")
+					case strings.Contains(t.Name, "allocator.go"):
+						role = "membership-handler"
+						// a handler that has handed its change to a partition's raft group and waits there for the group to have a
+						// leader waits for the environment (a quorum of that group), not for this node: no wedge
+						if strings.Contains(fn, "raft.(*node).step") {
+							idle = true
+							waitingForLeader++
+						}
 					default:
 						// partition raft threads idle on their own selects; one that waits for a lock at quiescence,
 						// after time has passed, waits for good
@@ -212,7 +247,7 @@ func build(v variant) *explore.Scenario {
 						detail = append(detail, fmt.Sprintf("%s blocked at %s (%s)", t.Name, t.Where(), fn))
 					}
 				}
-				x.Outcome = fmt.Sprintf("applied=%d membership=%v wedged=%d", g.applied, membershipDone, len(wedged))
+				x.Outcome = fmt.Sprintf("applied=%d membership=%v wedged=%d handlers-waiting-for-a-group-leader=%d", g.applied, membershipDone, len(wedged), waitingForLeader)
 				if t := x.S.Panicked(); t != nil {
 					return nil // reported by the explorer as panic:<site>
 				}
@@ -252,6 +287,15 @@ func main() {
 		{name: "create-with-a-replica-that-has-no-address", script: []string{"create:1:177", "create:2:1"}, repl: 2},
 		{name: "node-removed-vs-first-dial", script: []string{"create:1:1"}, membership: []member{rem(2)}, dial: []uint64{2}, repl: 1},
 		{name: "node-added-and-removed-vs-first-dials", script: []string{"create:1:1"}, membership: []member{add(3), rem(3)}, dial: []uint64{3, 2}, repl: 1, maxQ: 1},
+		// a membership handler's proposal that ends up behind the deletion of its dataset, with more catalogue changes after it
+		{name: "node-added-during-create-delete-create", script: []string{"create:1:1", "delete:1", "create:2:1"}, membership: []member{add(3)}, repl: 2},
+		{name: "node-removed-during-create-delete-create", script: []string{"create:1:12", "delete:1", "create:2:12"}, membership: []member{rem(2)}, repl: 2},
+		// two membership changes in a row while the handlers of the first read the member list
+		{name: "two-nodes-added-during-create-underreplicated", script: []string{"create:1:1"}, membership: []member{add(3), add(4)}, repl: 2},
+		{name: "create-request-vs-two-nodes-added", script: []string{"create:1:1"}, membership: []member{add(3), add(4)}, creator: true, repl: 1},
+		// a partition whose log store is damaged: loading its group panics inside the raft library; the catalogue goes on
+		{name: "damaged-partition-log-then-more-catalogue-changes", script: []string{"create:1:1", "create:2:1", "delete:2", "create:3:1"}, damage: []int{1}, repl: 1},
+		{name: "damaged-partition-log-vs-node-added", script: []string{"create:1:1", "create:2:1"}, damage: []int{1}, membership: []member{add(3)}, repl: 2, maxQ: 1},
 		{name: "restart-burst-of-11-node-additions", script: []string{"create:1:1", "create:2:1"}, membership: burst, repl: 1, maxQ: 1},
 	}
 	var scs []*explore.Scenario
